@@ -9,6 +9,7 @@
 #define V_STUB_CHACHA20 1
 #define V_STUB_HCHACHA20 1
 #define V_STUB_POLY1305 1
+#define V_POLY_STREAM 1
 #define V_STUB_MEMZERO 1
 #define V_MEMZERO_SILENT 1
 #define V_STUB_RANDOMBYTES 1
@@ -47,7 +48,7 @@
 #endif
 
 struct vin_t {
-    unsigned long long mlen, adlen, clen; size_t gk; int m_null, lenp_null; unsigned char mold;
+    unsigned long long mlen, adlen, clen, gm; size_t gk; int m_null, lenp_null; unsigned char mold;
     unsigned char ks0[64], hk[32], tag[16], mac[16], npub[24], k[32];
 };
 struct vin_t nondet_vin(void);
@@ -69,7 +70,7 @@ static unsigned char eff_nonce_[24];
 static void setup_(void)
 {
     int i;
-    v_ks0 = vin.ks0; v_subkey = vin.hk; v_tag = vin.tag; v_nlog = 0; v_log_overflow = 0; v_misuse_expected = 0;
+    v_ks0 = vin.ks0; v_subkey = vin.hk; v_tag = vin.tag; v_mac_g = vin.gm; v_nlog = 0; v_log_overflow = 0; v_misuse_expected = 0;
     v_ref_key = vin.k; v_ref_nb = vin.npub;                 /* N_B: the caller's nonce (HChaCha20 reads its first 16 bytes) */
 #if VAR == 2
     for (i = 0; i < 24; i++) eff_nonce_[i] = 0;
@@ -91,57 +92,76 @@ static int nk_ok_(const struct v_ev *e, const unsigned char *npub, const unsigne
 #endif
 }
 
-/* The MAC transcript common to encryption and decryption, events [BASE .. ), returns the index after FINAL's wipes.
- * xor_first: encryption encrypts before authenticating the ciphertext. */
-static unsigned mac_transcript_(const char *who, const unsigned char *c, unsigned long long mlen, const unsigned char *ad,
-                                unsigned long long adlen, const unsigned char *npub, const unsigned char *k,
-                                const unsigned char *xor_out, const unsigned char *xor_in, int with_xor_before)
+/* Events are looked up by kind, not by position, and the MAC input is checked as ONE byte stream (total length and the
+ * byte at an arbitrary ghost offset), so the checks do not depend on how the code chunks its Poly1305 updates or orders
+ * independent calls.  Orderings that matter are implied by values: the one-time key must equal keystream block 0 (so the
+ * block was produced first), and on encryption the MACed byte must equal the FINAL content of c (so it was read after the
+ * XOR, whose assumed contract leaves its output arbitrary). */
+static unsigned count_(int op) { unsigned i, n = 0; for (i = 0; i < V_LOG_MAX; i++) if (i < v_nlog && v_log[i].op == op) n++; return n; }
+static unsigned first_(int op) { unsigned i, r = 0; int f = 0; for (i = 0; i < V_LOG_MAX; i++) if (!f && i < v_nlog && v_log[i].op == op) { r = i; f = 1; } return r; }
+static unsigned long long off_c_(unsigned long long adlen) { return PADDED ? adlen + ((16 - (adlen & 15)) & 15) : adlen + 8; }
+static unsigned long long mac_total_(unsigned long long mlen, unsigned long long adlen) { return PADDED ? off_c_(adlen) + mlen + ((16 - (mlen & 15)) & 15) + 16 : off_c_(adlen) + mlen + 8; }
+/* the byte the specification puts at offset g of the MAC input; cbyte = the ciphertext byte when g falls into c */
+static unsigned char mac_expected_(unsigned long long g, unsigned char cbyte, unsigned long long mlen, const unsigned char *ad, unsigned long long adlen)
 {
-    unsigned i = 0;
-#if VAR == 2
-    VASSERT("XChaCha20: sub-key = HChaCha20(k, npub[0..16)) with the default constant", V_EV(0).op == V_OP_HCHACHA && (V_EV(0).flags & V_F_N_B) && (V_EV(0).flags & V_F_K_USER) && V_EV(0).st == NULL);
-#endif
-    i = BASE;
-    VASSERT("Poly1305 key block = 64 bytes of keystream block 0 under (nonce, key)",
-            V_EV(i).op == V_OP_STREAM && V_EV(i).cipher == CIPHER && V_EV(i).len == 64 && nk_ok_(&V_EV(i), npub, k));
-    const void *block0 = V_EV(i).out; i++;
-    VASSERT("one-time key = first 32 bytes of that block", V_EV(i).op == V_OP_POLY_INIT && V_EV(i).kptr == block0 && (V_EV(i).flags & V_F_K_KS0));
-    const void *st = V_EV(i).st; i++;
-    SKIPZ(i);
-    VASSERT("MAC input 1: ad", V_EV(i).op == V_OP_POLY_UPDATE && V_EV(i).st == st && V_EV(i).in == ad && V_EV(i).len == adlen); i++;
+    unsigned long long oc = off_c_(adlen);
+    if (g < adlen) return ad[g];
 #if PADDED
-    VASSERT("MAC input: zero padding of ad to 16", V_EV(i).op == V_OP_POLY_UPDATE && V_EV(i).st == st && V_EV(i).len == ((16 - (adlen & 15)) & 15) && (V_EV(i).flags & V_F_D_ZERO)); i++;
+    if (g < oc) return 0;
+    if (g < oc + mlen) return cbyte;
+    unsigned long long ol = oc + mlen + ((16 - (mlen & 15)) & 15);
+    if (g < ol) return 0;
+    if (g < ol + 8) return (unsigned char) (adlen >> (8 * (g - ol)));
+    return (unsigned char) (mlen >> (8 * (g - ol - 8)));
 #else
-    VASSERT("MAC input: le64(adlen)", V_EV(i).op == V_OP_POLY_UPDATE && V_EV(i).st == st && V_EV(i).len == 8 && V_EV(i).d64 == adlen); i++;
+    if (g < oc) return (unsigned char) (adlen >> (8 * (g - adlen)));
+    if (g < oc + mlen) return cbyte;
+    return (unsigned char) (mlen >> (8 * (g - oc - mlen)));
 #endif
-    if (with_xor_before) {
-        VASSERT("ciphertext = message XOR keystream from block counter 1 under (nonce, key)",
-                V_EV(i).op == V_OP_XOR && V_EV(i).cipher == CIPHER && V_EV(i).out == xor_out && V_EV(i).in == xor_in && V_EV(i).len == mlen && V_EV(i).ic == 1 && nk_ok_(&V_EV(i), npub, k)); i++;
-    }
-    VASSERT("MAC input: ciphertext", V_EV(i).op == V_OP_POLY_UPDATE && V_EV(i).st == st && V_EV(i).in == c && V_EV(i).len == mlen); i++;
-#if PADDED
-    VASSERT("MAC input: zero padding of ciphertext to 16", V_EV(i).op == V_OP_POLY_UPDATE && V_EV(i).st == st && V_EV(i).len == ((16 - (mlen & 15)) & 15) && (V_EV(i).flags & V_F_D_ZERO)); i++;
-    VASSERT("MAC input: le64(adlen)", V_EV(i).op == V_OP_POLY_UPDATE && V_EV(i).st == st && V_EV(i).len == 8 && V_EV(i).d64 == adlen); i++;
-#endif
-    VASSERT("MAC input: le64(mlen)", V_EV(i).op == V_OP_POLY_UPDATE && V_EV(i).st == st && V_EV(i).len == 8 && V_EV(i).d64 == mlen); i++;
-    VASSERT("tag = Poly1305 final of that state", V_EV(i).op == V_OP_POLY_FINAL && V_EV(i).st == st);
-    (void) who;
-    return i;
 }
+static const void *mac_transcript_(unsigned char cbyte, unsigned long long mlen, const unsigned char *ad, unsigned long long adlen,
+                                   const unsigned char *npub, const unsigned char *k)
+{
+    unsigned i;
+#if VAR == 2
+    i = first_(V_OP_HCHACHA);
+    VASSERT("XChaCha20: sub-key = HChaCha20(k, npub[0..16)) with the default constant, derived once", count_(V_OP_HCHACHA) == 1 && V_EV(i).op == V_OP_HCHACHA && (V_EV(i).flags & V_F_N_B) && (V_EV(i).flags & V_F_K_USER) && V_EV(i).st == NULL);
+#else
+    VASSERT("no sub-key derivation in the ChaCha20 variants", count_(V_OP_HCHACHA) == 0);
+#endif
+    i = first_(V_OP_STREAM);
+    VASSERT("Poly1305 key block = 64 bytes of keystream block 0 under (nonce, key)",
+            count_(V_OP_STREAM) == 1 && V_EV(i).op == V_OP_STREAM && V_EV(i).cipher == CIPHER && V_EV(i).len == 64 && nk_ok_(&V_EV(i), npub, k));
+    i = first_(V_OP_POLY_INIT);
+    VASSERT("one-time key = first 32 bytes of that block; one MAC computation", count_(V_OP_POLY_INIT) == 1 && V_EV(i).op == V_OP_POLY_INIT && (V_EV(i).flags & V_F_K_KS0));
+    const void *st = V_EV(i).st;
+    VASSERT("all MAC input goes into that one Poly1305 state", !v_mac_bad_st);
+#if PADDED
+    VASSERT("MAC input length = |ad| + pad16 + |c| + pad16 + 8 + 8", v_mac_total == mac_total_(mlen, adlen));
+    VASSERT("MAC input = ad || 0-pad to 16 || ciphertext || 0-pad to 16 || le64(adlen) || le64(mlen), byte for byte (arbitrary offset)",
+            v_mac_has == (vin.gm < mac_total_(mlen, adlen)) && (!v_mac_has || v_mac_gbyte == mac_expected_(vin.gm, cbyte, mlen, ad, adlen)));
+#else
+    VASSERT("MAC input length = |ad| + 8 + |c| + 8", v_mac_total == mac_total_(mlen, adlen));
+    VASSERT("MAC input = ad || le64(adlen) || ciphertext || le64(mlen), byte for byte (arbitrary offset)",
+            v_mac_has == (vin.gm < mac_total_(mlen, adlen)) && (!v_mac_has || v_mac_gbyte == mac_expected_(vin.gm, cbyte, mlen, ad, adlen)));
+#endif
+    i = first_(V_OP_POLY_FINAL);
+    VASSERT("tag = Poly1305 final of that state, once", count_(V_OP_POLY_FINAL) == 1 && V_EV(i).op == V_OP_POLY_FINAL && V_EV(i).st == st);
+    return V_EV(i).out;
+}
+static int in_c_(unsigned long long mlen, unsigned long long adlen) { return vin.gm >= off_c_(adlen) && vin.gm - off_c_(adlen) < mlen; }
 
 /* ------------------------------------------------------------------------------------------- encrypt (detached) */
 static void check_encrypt_(const unsigned char *c, const unsigned char *mac, const unsigned char *m, unsigned long long mlen,
                            const unsigned char *ad, unsigned long long adlen, const unsigned char *npub, const unsigned char *k)
 {
-    unsigned i = mac_transcript_("enc", c, mlen, ad, adlen, npub, k, c, m, 1);
-    VASSERT("tag written to the mac output", V_EV(i).out == mac && v_eq(mac, vin.tag, 16));
-    const void *st = V_EV(i).st; i++;
-    SKIPZ(i);
-#if VAR == 2
-    SKIPZ(i);
-#endif
-    SKIPZ(i);
-    VASSERT("no further primitive calls", v_nlog == i && !v_log_overflow);
+    unsigned char cbyte = in_c_(mlen, adlen) ? c[vin.gm - off_c_(adlen)] : 0;      /* the ciphertext as finally written */
+    const void *out = mac_transcript_(cbyte, mlen, ad, adlen, npub, k);
+    unsigned i = first_(V_OP_XOR);
+    VASSERT("ciphertext = message XOR keystream from block counter 1 under (nonce, key), one pass",
+            count_(V_OP_XOR) == 1 && V_EV(i).op == V_OP_XOR && V_EV(i).cipher == CIPHER && V_EV(i).out == c && V_EV(i).in == m && V_EV(i).len == mlen && V_EV(i).ic == 1 && nk_ok_(&V_EV(i), npub, k));
+    VASSERT("tag written to the mac output", out == mac && v_eq(mac, vin.tag, 16));
+    VASSERT("no further primitive calls", v_nlog == 4 + (VAR == 2) && !v_log_overflow);
 }
 
 void hf_encrypt_detached(void)
@@ -183,24 +203,20 @@ void hf_encrypt_toolong(void)
 
 /* ------------------------------------------------------------------------------------------- decrypt (detached) */
 static void check_decrypt_(int r, unsigned char *m, const unsigned char *c, unsigned long long mlen, const unsigned char *mac,
-                           const unsigned char *ad, unsigned long long adlen, const unsigned char *npub, const unsigned char *k, int have_gk)
+                           const unsigned char *ad, unsigned long long adlen, const unsigned char *npub, const unsigned char *k, int have_gk, unsigned char cbyte)
 {
     int tag_ok = v_eq(vin.tag, mac, 16);
-    unsigned i = mac_transcript_("dec", c, mlen, ad, adlen, npub, k, NULL, NULL, 0);
-    const void *st = V_EV(i).st, *cm = V_EV(i).out; i++;
-    SKIPZ(i);
-    SKIPZ(i);
+    (void) mac_transcript_(cbyte, mlen, ad, adlen, npub, k);                        /* cbyte: the ciphertext as given */
     VASSERT("accepted iff the recomputed tag equals the given tag in all 16 bytes", (r == 0) == tag_ok);
     VASSERT("failure is reported as -1", r == 0 || r == -1);
     if (m != NULL && tag_ok) {
-        VASSERT("plaintext = ciphertext XOR keystream from block counter 1 under (nonce, key), only after the tag check",
-                V_EV(i).op == V_OP_XOR && V_EV(i).cipher == CIPHER && V_EV(i).out == m && V_EV(i).in == c && V_EV(i).len == mlen && V_EV(i).ic == 1 && nk_ok_(&V_EV(i), npub, k)); i++;
+        unsigned i = first_(V_OP_XOR);
+        VASSERT("plaintext = ciphertext XOR keystream from block counter 1 under (nonce, key), one pass",
+                count_(V_OP_XOR) == 1 && V_EV(i).op == V_OP_XOR && V_EV(i).cipher == CIPHER && V_EV(i).out == m && V_EV(i).in == c && V_EV(i).len == mlen && V_EV(i).ic == 1 && nk_ok_(&V_EV(i), npub, k));
+    } else {
+        VASSERT("no keystream is applied to the output on failure or in verify-only mode", count_(V_OP_XOR) == 0);
     }
-#if VAR == 2
-    SKIPZ(i);
-#endif
-    SKIPZ(i);
-    VASSERT("no further primitive calls (no keystream applied to the output on failure or in verify-only mode)", v_nlog == i && !v_log_overflow);
+    VASSERT("no further primitive calls", v_nlog == 3 + (VAR == 2) + count_(V_OP_XOR) && !v_log_overflow);
     if (m != NULL && !tag_ok && have_gk) VASSERT("on failure the output buffer holds zeros (a filler independent of key and data)", m[vin.gk] == 0);
 }
 
@@ -210,10 +226,11 @@ void hf_decrypt_detached(void)
     VASSUME(vin.mlen <= VLMAX && vin.adlen <= VLMAX);
     unsigned char *c = buf_(vin.mlen), *m = vin.m_null == 1 ? NULL : (vin.m_null == 2 ? c : buf_(vin.mlen)), *ad = buf_(vin.adlen);
     int have_gk = vin.gk < vin.mlen, r = 9;
-    if (m != NULL && have_gk) m[vin.gk] = vin.mold;
+    if (m != NULL && have_gk && m != c) m[vin.gk] = vin.mold;
+    unsigned char cbyte = in_c_(vin.mlen, vin.adlen) ? c[vin.gm - off_c_(vin.adlen)] : 0;
     VCALL(r = FN(decrypt_detached)(m, NULL, c, vin.mlen, vin.mac, ad, vin.adlen, vin.npub, vin.k));
     if (VMISUSED()) return;
-    check_decrypt_(r, m, c, vin.mlen, vin.mac, ad, vin.adlen, vin.npub, vin.k, have_gk);
+    check_decrypt_(r, m, c, vin.mlen, vin.mac, ad, vin.adlen, vin.npub, vin.k, have_gk && m != c, cbyte);
     VREACH("hf_decrypt_detached");
 }
 
@@ -226,13 +243,14 @@ void hf_decrypt(void)
     int have_gk = vin.gk < ml, r = 9; size_t j;
     if (vin.clen >= 16) for (j = 0; j < 16; j++) c[ml + j] = vin.mac[j];
     if (m != NULL && have_gk && m != c) m[vin.gk] = vin.mold;
+    unsigned char cbyte = (vin.clen >= 16 && in_c_(ml, vin.adlen)) ? c[vin.gm - off_c_(vin.adlen)] : 0;
     VCALL(r = FN(decrypt)(m, vin.lenp_null ? NULL : &mlen_out, NULL, c, vin.clen, ad, vin.adlen, vin.npub, vin.k));
     if (VMISUSED()) return;
     if (vin.clen < 16) {
         VASSERT("input shorter than the tag is rejected without touching anything", r == -1 && v_nlog == 0);
         if (m != NULL && have_gk && m != c) VASSERT("output untouched", m[vin.gk] == vin.mold);
     } else {
-        check_decrypt_(r, m, c, ml, c + ml, ad, vin.adlen, vin.npub, vin.k, have_gk && m != c);
+        check_decrypt_(r, m, c, ml, c + ml, ad, vin.adlen, vin.npub, vin.k, have_gk && m != c, cbyte);
     }
     VASSERT("reported message length is clen-16 on success and 0 on failure", vin.lenp_null || mlen_out == (r == 0 ? ml : 0));
     VREACH("hf_decrypt");
